@@ -1342,4 +1342,51 @@ theorem padRes_okPairs : ∀ (n : Nat) (l : List (Bytes × Bool)),
     simp only [List.map_nil, padRes, List.filterMap_cons, okPair, this, List.take_nil]
   | n + 1, x :: r => by simp [padRes, okPair, padRes_okPairs n r]
 
+/-! ### extracted arms of `Session::pull` -/
+
+theorem recvA_spec (s : Session) : s.recvA specPull = s.recv := by
+  cases s with
+  | mk rx la dn => cases rx <;> rfl
+
+theorem peekA_spec (s : Session) (c : Bytes) : s.peekA specPull c = s.peek c := by
+  cases s with
+  | mk rx la dn =>
+    cases rx with
+    | nil => rfl
+    | cons m r => cases m <;> rfl
+
+theorem pullA_spec (s : Session) : s.pullA specPull = s.pull := by
+  cases s with
+  | mk rx la dn =>
+    cases la with
+    | some c =>
+      cases rx with
+      | nil => rfl
+      | cons m r => cases m <;> rfl
+    | none =>
+      cases rx with
+      | nil => rfl
+      | cons m r =>
+        cases m with
+        | chunk c =>
+          cases r with
+          | nil => rfl
+          | cons m' r' => cases m' <;> rfl
+        | «end» => rfl
+        | fail e => rfl
+
+theorem pullAllA_spec : ∀ (n : Nat) (s : Session), pullAllA specPull n s = pullAll n s
+  | 0, _ => rfl
+  | n + 1, s => by
+    simp only [pullAllA, pullAll, pullA_spec]
+    cases hp : s.pull with
+    | mk s' r =>
+      cases r with
+      | error e => rfl
+      | ok v =>
+        obtain ⟨c, last⟩ := v
+        cases last with
+        | true => rfl
+        | false => simp only []; rw [pullAllA_spec n s']
+
 end Repe.Svs
